@@ -483,7 +483,7 @@ pub fn check_set(set: &JSet, acc: &mut Acc) -> CaseResult {
 }
 
 fn run_shard(ctx: &ShardCtx, acc: &mut Acc) {
-    drive(ctx, "sets", ctx.tier.pick(40_000, 400_000), 400, acc, &|ch, acc| {
+    drive(ctx, "sets", ctx.tier.pick(120_000, 500_000), 400, acc, &|ch, acc| {
         let set = gen_set(ch);
         acc.sample(|| json!({ "set": set }));
         check_set(&set, acc)
